@@ -1272,10 +1272,7 @@ impl ChunkSim {
                 }
             }
         }
-        if batch.count > inputs.len() {
-            rec.violate("I-cnt", "apply reports more successes than tuples", format!("event {} count {} len {}", k, batch.count, inputs.len()));
-            return;
-        }
+        // (that a count never exceeds the set length is C10's statement, not C02's: not asserted)
         if elementary && batch.count != ref_count_sum {
             rec.violate(
                 "I-cnt",
